@@ -4,7 +4,9 @@ import Nv.Gen.C12
 /-!
 oracle_c12 — line protocol (one queue per script; the first line creates it):
   `new q <cap>` | `new async <cap>` | `new mux <cap>` | `new mq <ctrlCap> <reqCap>` | `new syncq` | `new priq <cap>` → `ok`
-  list queues: `add x` `prior x` `addc x` `priorc x` `pop` `popany` `trypop` `close` `tryclose` `tryclear`
+  list queues: `add x` `prior x` `addc x` `priorc x` `addany x p|c` `addcany x p|c` (the *Anyway adds; if the queue is full the
+               retry loop is resolved by PopAnyway-ing until there is room (p) or by Close (c)) `pop` `popany` `trypop`
+               `close` `tryclose` `tryclear` `size?` `waitclose` `waitclear`
                `len` `closed?` `cleared?`
   priq:        `push x p` `pop` `len`
 results: `ok` `closed` `full` `ctrl-full` `v:<x>` `nil` `none` `would-block` `true|false` `<n>` `bad-op`.
@@ -21,6 +23,8 @@ def showOut : Out → String
   | .ok => "ok" | .closed => "closed" | .full => "full" | .ctrlFull => "ctrl-full"
   | .val x => s!"v:{x}" | .nil => "nil" | .none => "none" | .wouldBlock => "would-block"
   | .bool b => if b then "true" else "false" | .num n => s!"{n}" | .badOp => "bad-op"
+  | .spun l fin => "spun:" ++ showList (fun v => s!"v:{v}") l ++ ":" ++
+      (match fin with | .ok => "ok" | .closed => "closed" | .forever => "forever")
 
 def parseKind (s : String) : Option Kind :=
   if s == "q" then some .q else if s == "async" then some .async else if s == "mux" then some .mux
@@ -31,6 +35,11 @@ def parseOp : List String → Option Op
   | ["prior", x] => (parseNat? x).map .prior
   | ["addc", x] => (parseNat? x).map .addCtrl
   | ["priorc", x] => (parseNat? x).map .priorCtrl
+  | ["addany", x, r] => if r == "p" || r == "c" then (parseNat? x).map (fun x => .addAny x (r == "p")) else none
+  | ["addcany", x, r] => if r == "p" || r == "c" then (parseNat? x).map (fun x => .addCtrlAny x (r == "p")) else none
+  | ["size?"] => some .size
+  | ["waitclose"] => some .waitClose
+  | ["waitclear"] => some .waitClear
   | ["pop"] => some .pop
   | ["popany"] => some .popAnyway
   | ["trypop"] => some .tryPop
